@@ -102,6 +102,27 @@ def r2_priority_writes(ctx):
             ctx.ob("C11.R2", "unguarded-priority-write|%s" % b.loc(s), False,
                    "a write of the priority map in next_task is neither part of the new-task loop nor guarded by (change point || is_yielding): priorities would change at other moments",
                    loc=b.loc(s))
+    # a new task must be able to end up with the lowest priority: the swap target is drawn as gen_range(0..len) + c and compared with the new
+    # task's own id, which is >= len (ids are assigned densely), so the self-swap branch (new task takes next_priority, the lowest) is
+    # reachable only if c >= 1
+    lin2 = Lin(b)
+    lin2.opaque = {"::gen_range": "draw"}
+    eqs = [(s, t) for s, t in b.calls() if any(c.endswith("TaskId as core::cmp::PartialEq>::eq") for c in b.callees_of_call(t, passed=False))]
+    offs = []
+    for s, t in eqs:
+        for a in t["args"]:
+            # the compared operands are references to locals: look through the reference
+            l = operand_local(a)
+            ds = lin2.defs.get(l, []) if l is not None else []
+            src = {"k": "copy", "pl": {"l": ds[0]["rv"]["pl"]["l"]}} if len(ds) == 1 and ds[0].get("k") == "assign" and ds[0]["rv"]["k"] == "ref" and not ds[0]["rv"]["pl"].get("p") else a
+            f = lin2.op(src)
+            if f is not None and f.get("draw") == 1 and set(f) <= {"draw", "const"}:
+                offs.append(f.get("const", 0))
+    ctx.ob("C11.R2", "new-task-can-be-lowest", bool(offs) and all(c >= 1 for c in offs),
+           "the swap target of a new task is gen_range(0..len) + %s: it can coincide with the new task's own id, i.e. the new task can receive the lowest priority" % offs
+           if (offs and all(c >= 1 for c in offs)) else
+           "the swap target of a new task (gen_range(0..len) + %s) can never equal the new task's id (>= len): a newly created task is never the lowest-priority "
+           "task, so orderings that need it to run last have probability 0" % (offs or "?"), loc=b.loc(eqs[0][0]) if eqs else b.loc())
     ctx.ob("C11.R2", "classification", n_cp == 1 and n_new >= 2, "priority writes in next_task: %d in the new-task loop, %d under the change-point/yield guard" % (n_new, n_cp), loc=b.loc())
     w = kinds.writers_of_field(prog, PRI, {"shuttle_schedulers"}, kinds=("assign", "refmut", "call_dst"))
     kinds.check_who_may(ctx, "C11.R2", "mutator of PctScheduler.priorities", set(w), {NT, NE, P + "PctScheduler::new_from_seed"})
